@@ -18,6 +18,8 @@ def gen_tree(rng, n=None, feats=None):
         nd = nodes[i]
         if i > 0 and rng.random() < F.get("p_fail", 0.2):
             nd["fail_on"] = sorted(set(rng.sample([0, 1, 2, 3], rng.randrange(1, 3))))
+            if rng.random() < F.get("p_nomemo", 0.0):
+                nd["fail_kind"] = "nomemo"     # an exception that is not to be memoized: raised and executed every time
         if rng.random() < F.get("p_res", 0.25):
             for _ in range(rng.randrange(1, 3)):
                 nd["resources"].append({"kind": rng.choice(["file", "custom"]), "idx": rng.randrange(3)})
@@ -122,7 +124,7 @@ def render(prog, resource_paths=None):
                 out[mark:] = ["    if %s:" % cond] + block
         if nd["fail_on"]:
             out.append("    if x in %r:" % (tuple(nd["fail_on"]),))
-            out.append('        raise ValueError("boom %s %%d" %% x)' % nd["name"])
+            out.append('        raise %s("boom %s %%d" %% x)' % ("__VNoMemo__" if nd.get("fail_kind") == "nomemo" else "ValueError", nd["name"]))
         out.append('    return ["%s", x, r]' % nd["name"])
         out.append("")
     return "\n".join(out) + "\n"
@@ -151,8 +153,11 @@ def install_helpers():
 
     class VTransient(NonMemoizedException):
         pass
+    class VNoMemo(NonMemoizedException):
+        pass
     builtins.__vfirst__ = vfirst
     builtins.__VTransient__ = VTransient
+    builtins.__VNoMemo__ = VNoMemo
 
 
 # ----------------------------------------------------------------------------- reference model
@@ -231,7 +236,7 @@ class Model:
                 r.append(sorted([k, v] for k, v in res.items()))
         if outcome is None:
             if x in nd["fail_on"]:
-                outcome = ["exc", "ValueError", "boom %s %d" % (nd["name"], x)]
+                outcome = ["exc", "VNoMemo" if nd.get("fail_kind") == "nomemo" else "ValueError", "boom %s %d" % (nd["name"], x)]
             else:
                 outcome = ["ok", [nd["name"], x, r]]
         rec["outcome"] = outcome
